@@ -282,6 +282,24 @@ def run(ctx):
                             text = to_text(t, mode)
                             judge(ctx, t, mode, text, "idiom")
         ctx.cls("idiom:" + fname)
+    # ---- operand KINDS: every pair of arithmetic / comparison operators, both nestings, with every
+    # pattern of 7 operand kinds at the three leaves: grouping must not depend on what the operands are
+    kinds = [T.ident("v"), T.I(7), T.lit("float", "1.5"), T.lit("duration", "P1DT2H"), T.S("s"),
+             T.lit("datetime", "2020-01-01T00:00:00Z"), T.call("now"), T.lit("duration", "-PT12H")]
+    ar = ("add", "sub", "mul", "div", "mod", "eq", "lt", "ge")
+    for o1 in ar:
+        for o2 in ar:
+            for k1 in range(len(kinds)):
+                for k2 in range(len(kinds)):
+                    for k3 in range(len(kinds)):
+                        j += 1
+                        if not ctx.mine(j):
+                            continue
+                        x, y, z = kinds[k1], kinds[k2], kinds[k3]
+                        for t in (mk(o1, mk(o2, x, y), z), mk(o1, x, mk(o2, y, z))):
+                            for mode in ("min", "full"):
+                                judge(ctx, t, mode, to_text(t, mode), "operand-kinds")
+    ctx.cls("operand-kinds")
     # ---- random part ----------------------------------------------------------------
     rng = ctx.rng("rand")
     o = fullgen.Opts()
